@@ -197,7 +197,13 @@ Definition consistent (s : segment) : bool :=
 Record step := mkstep { st_seg : segment; st_frompb : bool; st_tbl : tbl_t; st_impl : bool }.
 
 Inductive case :=
-| CSeq (pki : list cert) (trcs : list trc) (cache : bool) (steps : list step).
+| CSeq (pki : list cert) (trcs : list trc) (cache : bool) (steps : list step)
+(** one verification unit through segverifier.StartVerification / Unit.Verify with a
+    request context that expires while the verifier is still busy ([mode]: how it
+    stalls); [unit_ok]: the UnitResult carries no segment error, i.e. the segment
+    would be stored as verified.  The unit waits for the verification to complete,
+    so it is reported verified exactly when VerifySegment returns nil. *)
+| CUnit (pki : list cert) (trcs : list trc) (mode : N) (st : step) (unit_ok : bool).
 
 Definition step_agree (pki : list cert) (trcs : list trc) (st : step) : bool :=
   Bool.eqb (verify_segment_c pki trcs (st_tbl st) (st_seg st)) (st_impl st)
@@ -208,10 +214,19 @@ Definition step_oracle (pki : list cert) (trcs : list trc) (st : step) : bool :=
   negb (consistent (st_seg st))
   || Bool.eqb (spec_segment pki trcs (st_tbl st) (st_seg st)) (st_impl st).
 
+(** reported verified => every entry verified (an incomplete verification is not "verified") *)
+Definition unit_oracle (pki : list cert) (trcs : list trc) (st : step) (unit_ok : bool) : bool :=
+  step_oracle pki trcs st
+  && (negb unit_ok || negb (consistent (st_seg st)) || spec_segment pki trcs (st_tbl st) (st_seg st)).
+
 Definition check (c : case) : N :=
   match c with
   | CSeq pki trcs _ steps =>
     Check.verdict (forallb (step_agree pki trcs) steps) (forallb (step_oracle pki trcs) steps)
+  | CUnit pki trcs _ st unit_ok =>
+    Check.verdict (step_agree pki trcs st
+                   && Bool.eqb (verify_segment_c pki trcs (st_tbl st) (st_seg st)) unit_ok)
+                  (unit_oracle pki trcs st unit_ok)
   end.
 
 Definition diag (c : case) : list (bool * bool * bool) :=
@@ -219,6 +234,9 @@ Definition diag (c : case) : list (bool * bool * bool) :=
   | CSeq pki trcs _ steps =>
     map (fun st => (verify_segment_c pki trcs (st_tbl st) (st_seg st),
                     spec_segment pki trcs (st_tbl st) (st_seg st), consistent (st_seg st))) steps
+  | CUnit pki trcs _ st _ =>
+    [(verify_segment_c pki trcs (st_tbl st) (st_seg st),
+      spec_segment pki trcs (st_tbl st) (st_seg st), consistent (st_seg st))]
   end.
 
 End SegVerify.
